@@ -186,6 +186,14 @@ func checkC08(c *Ctx) {
 			c.c11DeleteExpired(b) // cleanup acts on a key only when its entry has an expiry before the boundary
 		}
 	}, func(o *coreObl) (string, bool) { return "R08.7", o.Rule == "R11.1" || o.Rule == "R11.2" })
+	// "Walk visits every existing entry exactly once": every iterated entry is handed to the callback and counted once (C13 R13.3 on
+	// the Walk methods = C07 R07.7) — a Walk that filters (expired, overdue) leaves out entries Read still returns
+	for _, b := range backends {
+		b := b
+		c.borrow("C13", func() { c.c13Counts(b, nil) }, func(o *coreObl) (string, bool) {
+			return "R08.4", o.Rule == "R13.3" && strings.HasSuffix(o.Construct, ".Walk")
+		})
+	}
 }
 
 // c08RangeVarAddress: with the module's language version below go1.22 the variables of a range clause are shared by all iterations:
